@@ -477,9 +477,9 @@ func failf(rule, format string, a ...interface{}) *Fail {
 }
 
 type regCheck struct {
-	prop   string
-	name   string
-	weight float64
+	prop     string
+	name     string
+	weight   float64
 	run      func(t *testing.T)
 	property func(rt *rapid.T)
 	replay   func(raw json.RawMessage) *Fail
